@@ -48,13 +48,28 @@ CFG = dict(
          "no panic, output length, and the null / non-null pattern against the model run (positions whose window is singular in "
          "exact arithmetic are skipped, DESIGN 5.6); nt=0 marks empty input",
     theorem_hint="Props/C05.v",
-    level_text="Proof: (i) every add-emit-remove rolling feature returns exactly one output per input through both driver bodies, "
-               "for every window >= 1, and an empty result on empty input, never a panic or an unwritten slot (generic, any "
-               "carrier); (ii) mask theorems output_i = null <-> (valid count of the window < effective min_periods, where the "
-               "effective value is min(mp or w/2, w) raised to the intrinsic minimum 2/3/4) or the statistic is undefined, "
-               "derived from the closed forms of C01 for sum, mean, ewm, wma, var, std, skew, kurt and from C04 for cov; the "
-               "remaining families' nullness is part of their closed-form theorems in Props/C03.v and Props/C04.v. Tied to the "
-               "code by a mask-only differential run of all 37 entry points on every backend incl. empty and len < w input.",
+    level_text="Proof (Props/C05.v, 52 obligations): (i) every add-emit-remove rolling feature returns exactly one output per "
+               "input through both driver bodies, for every window >= 1, and an empty result on empty input, never a panic or an "
+               "unwritten slot (generic, any carrier); the index-form entry points (ts_vmin/vmax/vargmin/vargmax/vrank, "
+               "ts_vminmaxnorm, ts_vregx_resid_*) return the empty result on the empty series for EVERY window, carrier and null "
+               "dictionary, a fully written output of the input length for every series and window >= 1 (window > len included), "
+               "and reject window 0 on a non-empty series by the driver's assert; (ii) the effective min_periods: "
+               "min(mp or w/2, w) raised to the intrinsic minimum 2/3/4, and for the extrema/rank family mp or min(len,w)/2 "
+               "(DESIGN 5.3) with the corollary 'explicit mp or len >= w -> mp or w/2'; (iii) the exact two-directional null mask "
+               "output_i is null <-> (valid / pairwise-complete count of the window < effective min_periods) or the statistic is "
+               "undefined, with the undefinedness condition written out per function, for ALL rolling families: sum, mean, var, "
+               "std, skew, kurt; ewm (1-(1-2/w)^n = 0, proved equivalent to n = 0 inside a window), wma (n = 0); the five "
+               "time-trend regressions (n < 2); z-score (current element null or population variance <= EPS), min-max norm "
+               "(current null or max = min; elements within the type sentinels); cov (n < max(mp',2)), corr (either population "
+               "variance <= EPS), regx_alpha/beta/all (detB = n Sbb - Sb^2 = 0, i.e. constant regressor), regx_resid_mean/std/skew "
+               "(detB = 0; skew additionally n < 3) over the pairwise-complete observations; min/max/argmin/argmax (integer "
+               "carrier, any null dictionary, axiom-free: count < mp' or no valid element), rank (current element null or count "
+               "< mp'); ts_fdiff (null-free input: never null), ts_vfdiff (count < mp'); the plain families ts_sum..ts_kurt, ts_ewm, "
+               "ts_wma on null-free input (same masks, count = window length). Derived from the closed forms of "
+               "C01/C03/C04 (Proofs/Mask.v, Mask2.v, Mask3.v, Mask4.v). Not covered by a theorem (correspondence only): float element "
+               "carrier of the extrema/rank family, series of unequal length in the two-series functions, a null order d in "
+               "fdiff, min-max norm without the sentinel bound. Tied to the code by a mask-only differential run of all 37 entry "
+               "points on every backend incl. empty and len < w input.",
     level_note="Trusted: Coq kernel + Reals axioms for the mask theorems; models of features.rs / cmp.rs / norm.rs / binary.rs / "
                "reg.rs; omitted min_periods of the extrema/rank family follows DESIGN 5.3 (the model reproduces the clamp to the "
                "series length); integer outputs (NaN's integer cast) are not exercised here.",
